@@ -120,7 +120,10 @@ def build_queries(prop, sysm, u, mon, tier='quick'):
             qs.append(Query('no_start_of_dependents_of_failed', G['start_after_fail'], [], confirm='start_after_fail'))
             base = nohang + [nosig]
             qs.append(Query('bound_sufficient', incomplete, base))
-            qs.append(Query('failure_fails_the_run', z3.And(final_quiet, G['any_failed'], z3.Not(z3.And(S['main.phase'] == 4, S['main.err']))), base, confirm='rc_not_error'))
+            qs.append(Query('failure_fails_the_run', z3.And(final_quiet, z3.Or(G['any_failed'], G['truth_failed']), z3.Not(z3.And(S['main.phase'] == 4, S['main.err']))), base, confirm='rc_not_error',
+                            desc='a script exited unsuccessfully / could not be spawned (environment truth) or a target reported failure => the one-shot run ends with Err'))
+            qs.append(Query('unsuccessful_exit_is_a_failure', G['misclassified'], base, confirm='rc_not_error',
+                            desc='a script whose process exits unsuccessfully (non-zero code or killed by a signal) is never treated as Skipped/Completed'))
             qs.append(Query('error_only_on_failure', z3.And(S['main.err'], z3.Not(G['any_failed'])), base, confirm='rc_error'))
         else:
             qs.append(Query('watch_keeps_running_after_failure', z3.And(nosig, S['main.phase'] != 0), [], confirm='watch_exit'))
@@ -394,7 +397,7 @@ LOCAL_PLAN = {
     'C06': [('build', True), ('service', True), ('aggregate', True)],
     'C07': [('build', False), ('build', True), ('service', False), ('service', True)],
     'C08': [('build', False), ('service', False)],
-    'C11': [('service', False), ('service', True)],
+    'C11': [('service', False), ('service', True), ('aggregate', False)],
     'C20': [('aggregate', False), ('aggregate', True)],
 }
 LOCAL_MONITORS = {
@@ -403,8 +406,8 @@ LOCAL_MONITORS = {
     'C06': ['late_unanswered', 'bad_decide', 'ok_without_cause'],
     'C07': ['ok_on_fail', 'ok_without_cause'],
     'C08': ['twice'],
-    'C11': ['double_proc'],
-    'C20': ['ok_without_cause', 'late_unanswered', 'misdirected_ok'],
+    'C11': ['double_proc', 'wrong_actual'],
+    'C20': ['ok_without_cause', 'late_unanswered', 'misdirected_ok', 'wrong_actual'],
 }
 
 
